@@ -6,7 +6,7 @@ use std::collections::{BTreeMap, HashMap, HashSet};
 
 use serde_json::{json, Value};
 use tantivy::collector::sort_key::ComparatorEnum;
-use tantivy::collector::{Collector, SegmentCollector, TopDocs, TopNComputer};
+use tantivy::collector::{Collector, Count, MultiCollector, SegmentCollector, TopDocs, TopNComputer};
 use tantivy::fieldnorm::FieldNormReader;
 use tantivy::query::{AllQuery, BooleanQuery, Occur, Query, TermQuery};
 use tantivy::schema::{Field, IndexRecordOption, Schema, FAST, INDEXED, STRING, TEXT};
@@ -16,7 +16,7 @@ use tvh::out::CaseOut;
 use tvh::rng::Rng;
 use tvh::{guarded, Args};
 
-const HEADER: &str = "From TV Require Import Base.Prelude Generated.Constants Rank.TopN Rank.Paging Rank.Wand.";
+const HEADER: &str = "From TV Require Import Base.Prelude Generated.Constants Rank.TopN Rank.Paging Rank.Wand Rank.WandNoFreq.";
 
 // ------------------------------------------------------------------ Gallina printers
 fn ckey(k: &Option<i128>) -> String {
@@ -463,6 +463,29 @@ fn part_e2e(rng: &mut Rng, out: &mut CaseOut, thorough: bool) {
             let mut sorted = truth.clone();
             sort_spec(cmp, &mut sorted);
             let want = slice(&sorted, k, o);
+            // the same collector inside a tuple collector (generic for_segment / harvest route), offsets included
+            if variant <= 1 && o > 0 {
+                let r: Result<tantivy::Result<(usize, Vec<(Option<i128>, u64)>)>, String> = guarded(|| Ok(if variant == 0 {
+                    let (c, v) = searcher.search(&*q, &(Count, TopDocs::with_limit(k).and_offset(o).order_by_fast_field::<u64>("fu", order)))?;
+                    (c, v.into_iter().map(|(x, a)| (x.map(|x| x as i128), addr(a))).collect())
+                } else {
+                    let (c, v) = searcher.search(&*q, &(Count, TopDocs::with_limit(k).and_offset(o).order_by_fast_field::<i64>("fi", order)))?;
+                    (c, v.into_iter().map(|(x, a)| (x.map(|x| x as i128), addr(a))).collect())
+                }));
+                out.count("wrapped_pages", 1);
+                match r {
+                    Ok(Ok((c, got2))) => {
+                        if c != n { out.spec_checked(false, json!({"what": "Count inside a tuple collector disagrees with the exhaustive collector", "count": c, "matches": n, "query": qdesc, "corpus": extra})); }
+                        if got2 != want {
+                            let segs: Vec<Vec<(Option<i128>, u64)>> = { let mut m: BTreeMap<u64, Vec<(Option<i128>, u64)>> = BTreeMap::new(); for x in &truth { m.entry(x.1 >> 32).or_default().push(x.clone()); } m.into_values().map(|mut v| { v.sort_by_key(|x| x.1); v }).collect() };
+                            out.coq_case("known:F15", format!("F15_class {} {} {} {} {}", cmp_name(cmp), cf::list(&segs, |s| celts(s)), cf::nat(k), cf::nat(o), celts(&got2)),
+                                json!({"what": "sorted page through (Count, TopDocs) differs from the specified page", "key": label, "order": format!("{:?}", order), "query": qdesc, "k": k, "offset": o, "matches": n, "got": format!("{:?}", got2), "want": format!("{:?}", want), "corpus": extra}), true);
+                            out.count("wrapped_failures", 1);
+                        } else { out.spec_checked(true, Value::Null); }
+                    }
+                    r => out.spec_checked(false, json!({"what": "(Count, TopDocs by fast field) failed", "r": format!("{:?}", r.err()), "query": qdesc})),
+                }
+            }
             let desc = json!({"what": "sorted page", "key": label, "order": format!("{:?}", order), "query": qdesc, "k": k, "offset": o, "matches": n, "mt": mt, "corpus": extra});
             out.count(&format!("pages_{}", label), 1);
             if got != want {
@@ -655,7 +678,7 @@ fn part_merge_ties(rng: &mut Rng, out: &mut CaseOut, thorough: bool) {
             }
         } else {
         let nseg = rng.range(2, 4) as usize;
-        let max_mult = if ci % 4 == 3 { 3 } else { 2 };
+        let max_mult = match ci % 8 { 3 => 3, 7 => 5, _ => 2 };
         let levels = if ci % 5 == 0 { 4 } else { rng.range(2, 3) as usize };
         for _ in 0..nseg {
             let nd = if rng.chance(1, 5) { rng.range(1, 3) } else { rng.range(4, 9) } as usize;
@@ -682,8 +705,9 @@ fn part_merge_ties(rng: &mut Rng, out: &mut CaseOut, thorough: bool) {
         let lay = json!(layout);
         let all: Vec<(Option<i128>, u64)> = exh.iter().map(|(s, a)| (Some(f32_ord(*s)), addr(*a))).collect();
         for k in 1..=(n + 1).min(8) {
-            for o in [0usize, 1, 2] {
-                if o > 0 && (k + ci) % 3 != 0 { continue; }
+            for o in [0usize, 1, 2, k + 1] {
+                if o > 0 && o <= 2 && (k + ci) % 3 != 0 { continue; }
+                if o == k + 1 && (k + ci) % 2 != 0 { continue; }
                 let got = match guarded(|| searcher.search(&q, &TopDocs::with_limit(k).and_offset(o).order_by_score())) { Ok(Ok(v)) => v, _ => { out.spec_checked(false, json!({"what": "TopDocs failed", "layout": lay, "k": k, "o": o})); continue; } };
                 out.count("merge_tie_pages", 1);
                 match check_score_page(&exh, &got, k, o, true) {
@@ -697,6 +721,35 @@ fn part_merge_ties(rng: &mut Rng, out: &mut CaseOut, thorough: bool) {
                         }
                     }
                     Err((why, _)) => tie_failure(out, &exh, &got, k, o, &why, lay.clone()),
+                }
+                // the same TopDocs inside wrapping collectors (generic for_segment / collect / harvest route)
+                if o > 0 {
+                    let r = guarded(|| searcher.search(&q, &(Count, TopDocs::with_limit(k).and_offset(o).order_by_score())));
+                    out.count("wrapped_pages", 1);
+                    match r {
+                        Ok(Ok((cnt, got2))) => {
+                            if cnt != n { out.spec_checked(false, json!({"what": "Count inside a tuple collector disagrees with the exhaustive collector", "count": cnt, "matches": n, "layout": lay})); }
+                            match check_score_page(&exh, &got2, k, o, true) {
+                                Ok(()) => out.spec_checked(true, Value::Null),
+                                Err((why, _)) => tie_failure(out, &exh, &got2, k, o, &format!("(Count, TopDocs) tuple collector: {}", why), lay.clone()),
+                            }
+                        }
+                        r => out.spec_checked(false, json!({"what": "(Count, TopDocs) failed", "r": format!("{:?}", r.err()), "layout": lay, "k": k, "o": o})),
+                    }
+                    let r = guarded(|| -> tantivy::Result<Vec<(Score, DocAddress)>> {
+                        let mut mc = MultiCollector::new();
+                        let h = mc.add_collector(TopDocs::with_limit(k).and_offset(o).order_by_score());
+                        let _c = mc.add_collector(Count);
+                        let mut fruits = searcher.search(&q, &mc)?;
+                        Ok(h.extract(&mut fruits))
+                    });
+                    match r {
+                        Ok(Ok(got3)) => match check_score_page(&exh, &got3, k, o, true) {
+                            Ok(()) => out.spec_checked(true, Value::Null),
+                            Err((why, _)) => tie_failure(out, &exh, &got3, k, o, &format!("MultiCollector: {}", why), lay.clone()),
+                        },
+                        r => out.spec_checked(false, json!({"what": "MultiCollector failed", "r": format!("{:?}", r.err()), "layout": lay, "k": k, "o": o})),
+                    }
                 }
             }
         }
@@ -811,6 +864,102 @@ fn part_ranged_unions(rng: &mut Rng, out: &mut CaseOut, thorough: bool) {
     }
 }
 
+
+// ------------------------------------------------------------------ (b5) fields indexed without term frequencies
+/// Single-segment corpora with a TEXT field and a multi-valued STRING field (no term frequencies, but
+/// field norms: 1..4 values per document, so scores differ).  Posting lists of a no-frequency field carry
+/// no block-max metadata (every full 128-document block reports block max 0), so they must never reach the
+/// block-max WAND routines.  Queries: a single STRING term, unions of STRING terms, and unions mixing TEXT
+/// and STRING terms (Should only), K in {1,2,3,5}; tags with more and with fewer than 128 postings.
+const TAGS: [(&str, u64); 5] = [("hot", 45), ("warm", 28), ("mild", 18), ("cold", 6), ("rare", 1)];
+const NF_WORDS: [(&str, u64); 3] = [("a", 70), ("b", 35), ("c", 10)];
+
+fn part_nofreq(rng: &mut Rng, out: &mut CaseOut, thorough: bool) {
+    let n_corpora = if thorough { 12 } else { 3 };
+    for ci in 0..n_corpora {
+        let ndocs = match ci % 3 { 0 => rng.range(600, 900), 1 => rng.range(400, 600), _ => rng.range(100, 250) } as usize;
+        let mut sb = Schema::builder();
+        let body = sb.add_text_field("body", TEXT);
+        let tags = sb.add_text_field("tags", STRING);
+        let index = Index::create_in_ram(sb.build());
+        {
+            let mut w: IndexWriter = index.writer_with_num_threads(1, 50_000_000).expect("writer");
+            w.set_merge_policy(Box::new(tantivy::merge_policy::NoMergePolicy));
+            // the number of extra tag values (hence the field norm, hence the score of a tag term) drifts with the
+            // doc id in two corpora out of three: early documents are long, the better ones come in later blocks
+            let phases: Vec<u64> = if ci % 3 == 2 { vec![0] } else {
+                let mut p: Vec<u64> = vec![0, 3, 6, 9];
+                rng.shuffle(&mut p);
+                p.truncate(rng.range(2, 4) as usize);
+                let best = p.iter().position(|x| x == p.iter().min().unwrap()).unwrap();
+                if best == 0 { let l = p.len() - 1; p.swap(0, l); }   // the best documents never sit in the first blocks only
+                p
+            };
+            for di in 0..ndocs {
+                let mut d = TantivyDocument::default();
+                let mut toks: Vec<&str> = vec![];
+                for (wd, pct) in NF_WORDS.iter() { if rng.below(100) < *pct { for _ in 0..(1 + rng.below(3)) { toks.push(wd); } } }
+                let target = (2 * toks.len() + 2).max(8 + rng.below(8) as usize);
+                while toks.len() < target { toks.push("z"); }
+                d.add_text(body, &toks.join(" "));
+                for (t, pct) in TAGS.iter() { if rng.below(100) < *pct { d.add_text(tags, t); } }
+                let base = phases[di * phases.len() / ndocs];
+                for i in 0..(base + rng.below(2)) { d.add_text(tags, &format!("pad{}", i)); }
+                w.add_document(d).unwrap();
+            }
+            w.commit().expect("commit");
+            w.wait_merging_threads().ok();
+        }
+        let searcher = index.reader().unwrap().searcher();
+        let extra = json!({"nofreq_corpus": ci, "docs": ndocs});
+        out.count("nofreq_corpora", 1);
+        // (field, word, has term frequencies)
+        let all_terms: Vec<(Field, &str, bool)> = TAGS.iter().map(|t| (tags, t.0, false)).chain(NF_WORDS.iter().map(|t| (body, t.0, true))).collect();
+        let max_postings = |f: Field, wd: &str| -> u64 {
+            searcher.segment_readers().iter().map(|sr| sr.inverted_index(f).unwrap().doc_freq(&Term::from_field_text(f, wd)).unwrap_or(0) as u64).max().unwrap_or(0)
+        };
+        let mut queries: Vec<Vec<usize>> = (0..all_terms.len()).map(|i| vec![i]).collect();
+        for _ in 0..(if thorough { 60 } else { 40 }) {
+            let n = rng.range(2, 4) as usize;
+            let mut idx: Vec<usize> = (0..all_terms.len()).collect();
+            rng.shuffle(&mut idx);
+            let mut sel: Vec<usize> = idx[..n].to_vec();
+            sel.sort();
+            queries.push(sel);
+        }
+        for sel in queries {
+            let single = sel.len() == 1;
+            let mk = |i: usize| -> Box<dyn Query> { let (f, wd, freq) = all_terms[i]; Box::new(TermQuery::new(Term::from_field_text(f, wd), if freq { IndexRecordOption::WithFreqs } else { IndexRecordOption::Basic })) };
+            let q: Box<dyn Query> = if single { mk(sel[0]) } else { Box::new(BooleanQuery::new(sel.iter().map(|i| (Occur::Should, mk(*i))).collect())) };
+            let qdesc = sel.iter().map(|i| format!("{}:{}", if all_terms[*i].2 { "body" } else { "tags" }, all_terms[*i].1)).collect::<Vec<_>>().join(" OR ");
+            let info: Vec<(bool, u64)> = sel.iter().map(|i| (all_terms[*i].2, max_postings(all_terms[*i].0, all_terms[*i].1))).collect();
+            let exh = match guarded(|| searcher.search(&*q, &AllScores)) { Ok(Ok(v)) => v, r => { out.spec_checked(false, json!({"what": "exhaustive collector failed", "query": qdesc, "r": format!("{:?}", r.err())})); continue; } };
+            out.count(if single { "nofreq_single_term_queries" } else if info.iter().all(|x| !x.0) { "nofreq_union_queries" } else if info.iter().all(|x| x.0) { "freq_union_queries" } else { "mixed_union_queries" }, 1);
+            for k in [1usize, 2, 3, 5] {
+                let got = match search_by_score_with_deadline(&searcher, &*q, k, 20) {
+                    Ok(v) => v,
+                    Err(e) => { out.spec_checked(false, json!({"what": "TopDocs by score failed, panicked or did not terminate", "query": qdesc, "k": k, "r": e, "corpus": extra})); if e.starts_with("TIMEOUT") { return; } continue; } };
+                out.count("nofreq_pages", 1);
+                if let Err((why, missed)) = check_score_page(&exh, &got, k, 0, single) {
+                    let best = exh.iter().cloned().fold((f32::MIN, DocAddress::new(0, 0)), |m, x| if x.0 > m.0 { x } else { m });
+                    let desc = json!({"what": "by-score page violates the spec (query with a term of a field indexed without frequencies)", "why": why, "strictly_better_missed": missed, "query": qdesc, "k": k,
+                        "terms(has_freq, max postings in a segment)": info.iter().map(|x| json!([x.0, x.1])).collect::<Vec<_>>(),
+                        "got": got.iter().map(|(s, a)| json!([s, a.segment_ord, a.doc_id])).collect::<Vec<_>>(), "true_best": json!([best.0, best.1.segment_ord, best.1.doc_id]), "matches": exh.len(), "corpus": extra});
+                    // known class F61: a SINGLE term query on a no-frequency field with a full block; the classifier is evaluated by Coq
+                    if single {
+                        out.coq_case("known:F61", format!("F61_class {} {}", cf::boolean(single), cf::list(&info, |(f, n)| format!("({}, {})", cf::boolean(*f), n))), desc, true);
+                        out.count("nofreq_single_term_failures", 1);
+                    } else {
+                        // unions never reach block_wand unless every scorer reads frequencies: no known class
+                        out.spec_checked(false, desc);
+                        out.count("nofreq_union_failures", 1);
+                    }
+                } else { out.spec_checked(true, Value::Null); }
+            }
+        }
+    }
+}
+
 // ------------------------------------------------------------------ (c) corpus: witnesses of the known findings
 fn body_index(segs: &[Vec<String>]) -> (Index, Field) { body_index_with_budget(segs, 200_000_000) }
 fn body_index_with_budget(segs: &[Vec<String>], budget: usize) -> (Index, Field) {
@@ -870,6 +1019,32 @@ fn part_witnesses(out: &mut CaseOut) {
                 json!({"what": "F3 witness: segment of short docs (block-max argmax under its own average) + segment of 20000-token docs; term query top-1", "why": why, "strictly_better_missed": missed, "got": format!("{:?}", got), "true_best": format!("{:?}", best), "segment_stats(tokens,docs)": format!("{:?}", st)}), true);
         }
     }
+    // ---- F61: single term query on a field indexed without frequencies, >= 128 postings: full blocks report block max 0
+    {
+        let mut sb = Schema::builder();
+        let tag = sb.add_text_field("tag", STRING);
+        let index = Index::create_in_ram(sb.build());
+        let mut w: IndexWriter = index.writer_with_num_threads(1, 20_000_000).unwrap();
+        w.set_merge_policy(Box::new(tantivy::merge_policy::NoMergePolicy));
+        for d in 0..600u32 {
+            let mut doc = TantivyDocument::default();
+            doc.add_text(tag, "x");
+            if d < 200 || d >= 384 { doc.add_text(tag, "w"); doc.add_text(tag, "v"); }
+            w.add_document(doc).unwrap();
+        }
+        w.commit().unwrap();
+        let searcher = index.reader().unwrap().searcher();
+        let q = TermQuery::new(Term::from_field_text(tag, "x"), IndexRecordOption::Basic);
+        let exh = searcher.search(&q, &AllScores).unwrap();
+        out.count("witness_F61_run", 1);
+        if let Ok(got) = search_by_score_with_deadline(&searcher, &q, 1, 20) {
+            if let Err((why, missed)) = check_score_page(&exh, &got, 1, 0, true) {
+                let best = exh.iter().cloned().fold((0.0f32, DocAddress::new(0, 0)), |m, x| if x.0 > m.0 { x } else { m });
+                out.coq_case("known:F61", "F61_class true [(false, 600)]".to_string(),
+                    json!({"what": "F61 witness: 600 docs, STRING field, docs 0..199 and 384..599 carry 3 values, 200..383 one value; TermQuery(tag:x, Basic) top-1", "why": why, "strictly_better_missed": missed, "got": format!("{:?}", got), "true_best": format!("{:?}", best)}), true);
+            }
+        } else { out.spec_checked(false, json!({"what": "F61 witness search failed"})); }
+    }
     // ---- F15: three segments; ties on the boundary key are not broken by ascending address
     {
         let segkeys: Vec<Vec<usize>> = vec![vec![0, 2, 0, 0, 1, 2, 1, 2, 0, 1, 1], vec![0, 2], vec![0, 1, 1, 1, 2, 2, 2, 2, 1, 0, 1, 0, 2]];
@@ -909,5 +1084,6 @@ fn main() {
     part_conjunctions(&mut rng, &mut out, thorough);
     part_merge_ties(&mut rng, &mut out, thorough);
     part_ranged_unions(&mut rng, &mut out, thorough);
+    part_nofreq(&mut rng, &mut out, thorough);
     out.finish(json!({"tier": args.tier, "seed": args.seed}));
 }
